@@ -234,11 +234,8 @@ def analyse_batch(ctx, bname, out, steps, alone, canon, name_of):
             post_cells = extra if ci == len(cnames) - 1 else []
             post = "[" + "; ".join(f"Wv {canon.c(d['cell'])} {canon.v(d['after'])}" for d in post_cells) + "]"
             a = alone.get((iso, preset))
-            if a is not None and a.get("trace_def") is not None:
-                if (iso, preset) not in al_defs:
-                    al_defs[(iso, preset)] = f"al_{len(al_defs)}"
-                    defs.append(f"Definition {al_defs[(iso, preset)]} : list rev_ := {a['trace_def']}.")
-                al = al_defs[(iso, preset)]
+            if a is not None and a.get("al_name") is not None:
+                al = a["al_name"]          # defined once in the compiled file c14_alone_0.v
             else:
                 al = f"tr_{idx[tag]}" if tag in idx else "[]"
             tr = f"tr_{idx[tag]}" if tag in idx else "[]"
@@ -408,10 +405,25 @@ def run(ctx):
     all_terms, all_meta = [], []
     problems = []
 
+    # the traces recorded alone are compiled once (work/C14/c14_alone_0.vo) and imported by every batch file
+    al_defs, al_terms = [], []
+    for i, pr in enumerate(pairs):
+        if alone[pr]["trace_def"] is not None:
+            alone[pr]["al_name"] = f"al_{i}"
+            al_defs.append(f"Definition al_{i} : list rev_ := {alone[pr]['trace_def']}.")
+            al_terms.append(f"check_case [] al_{i} [] al_{i}")
+    IMPORTS = "From Coq Require Import NArith.\nFrom Allfed Require Import Model.Isolation."
+    al_codes = ctx.coq_codes("c14_alone", IMPORTS, al_terms or ["0%nat"], per_file=10 ** 6, defs="\n".join(al_defs))
+    for code, pr in zip(al_codes, [p for p in pairs if alone[p]["trace_def"] is not None]):
+        ctx.traces += 1
+        if code != 0:
+            m = {"batch": "alone", "step": 0, "country": pr[0], "preset": pr[1], "kind": "run", "pending": [],
+                 "tag": list(alone[pr]["step"]["results"].values())[0]["tag"]}
+            report_trace_problem(ctx, code, m, [run_step(0, [pr[0]], pr[1])], outs[f"alone{pairs.index(pr)}"], canon)
+
     def coq_one(k):
         terms, meta, probs, defs = analyse_batch(ctx, f"batch{k}", outs[f"batch{k}"], batches[k], alone, canon, name_of)
-        codes = ctx.coq_codes(f"c14_b{k}", "From Coq Require Import NArith.\nFrom Allfed Require Import Model.Isolation.", terms,
-                              per_file=10 ** 6, defs=defs)
+        codes = ctx.coq_codes(f"c14_b{k}", IMPORTS + "\nRequire Import c14_alone_0.", terms, per_file=10 ** 6, defs=defs)
         return terms, meta, probs, codes
 
     with ThreadPoolExecutor(max_workers=lib.NCPU) as ex:
@@ -426,7 +438,7 @@ def run(ctx):
             if code == 0:
                 continue
             report_trace_problem(ctx, code, m, batches[k], outs[f"batch{k}"], canon)
-    ctx.traces = ntr
+    ctx.traces += ntr
     ctx.notes["traces"] = {"runs_with_recorded_trace": ntr, "events": nev, "cells": sorted(canon.cells, key=canon.cells.get),
                            "distinct_values": len(canon.values)}
     inventory = {}
